@@ -48,6 +48,13 @@ def kwarg(ev, name, pos=None):
     return None
 
 
+def cna_is_propagated(exc):
+    """ConnectionNotAvailable tells the pool to send the request again elsewhere.  After the exchange
+    on a stream began it may only come out of `_receive_events` (GOAWAY with a lower last-stream-id,
+    checked there before any read): every other function merely passes it on from a callee."""
+    return bool(exc.tag.get("from"))  # raised by a `raise` statement of this function: no origin tag
+
+
 def register(reg):
     reg.fields(
         H2,
@@ -237,7 +244,7 @@ def register(reg):
     @reg.contract
     class WriteOutgoing(Contract):
         key = H2 + "._write_outgoing_data"
-        props = ("C03", "C16", "C15", "C12", "C13", "C14")
+        props = ("C03", "C16", "C15", "C12", "C13", "C14", "C01")
         modifies = ("NS.written", "X.queue_ver", "H2._write_exception", "H2._connection_error")
         raises = NET_WRITE_RAISES + ["Cancelled", "OtherException"]
         raises_props = ("C15", "C14")  # ConnectionNotAvailable from a write would be re-sent by the pool
@@ -258,6 +265,12 @@ def register(reg):
                 ]
             return []
 
+        def on_field_write(self, c, obj, key, v, node):
+            if key == "H2._write_exception":
+                ok = isinstance(v, VNone) or (isinstance(v, VExc) and c.eng.classes.issub(v.cls, "Exception") and v.cls in NET_WRITE_RAISES)
+                return [("sticky_write_failure_is_a_documented_network_error", ("C12", "C15"), ok)]
+            return []
+
         def exc_checks(self, c, exc):
             s = c.self
             if exc.tag.get("from", "").startswith("net.write"):
@@ -268,7 +281,7 @@ def register(reg):
     @reg.contract
     class ReadIncoming(Contract):
         key = H2 + "._read_incoming_data"
-        props = ("C02", "C16", "C15", "C14")
+        props = ("C02", "C16", "C15", "C14", "C12")
         result_kind = "seq:ref:" + EV
         modifies = ("NS.pending", "X.ver", "X.closed", "H2._read_exception", "H2._connection_error")
         raises = NET_READ_RAISES + [RPE, H2_PROTOCOL_ERROR, "Cancelled", "OtherException"]
@@ -289,6 +302,14 @@ def register(reg):
                     ("feeds_exactly_what_was_read", ("C02",), ev.data["data"].t == reads[0].data["result"].t if ok else False),
                     ("end_of_stream_is_not_fed", ("C02", "C15"), z3.Length(ev.data["data"].t) > 0),
                 ]
+            return []
+
+        def on_field_write(self, c, obj, key, v, node):
+            # representation invariant of the sticky failure: what every later reader will be given is a
+            # documented network failure of this read - never a cancellation or an internal error
+            if key == "H2._read_exception":
+                ok = isinstance(v, VNone) or (isinstance(v, VExc) and c.eng.classes.issub(v.cls, "Exception") and v.cls in NET_READ_RAISES + [RPE])
+                return [("sticky_read_failure_is_a_documented_network_error", ("C12", "C15"), ok)]
             return []
 
         def checks(self, c):
@@ -415,7 +436,7 @@ def register(reg):
                 pending = z3.And(z3.Not(sid.none), q.has(c.eng, c.st, sid.val.t), z3.Length(q.get(c.eng, c.st, sid.val.t).t) > 0)
                 out += [
                     ("network_read_under_the_read_lock", ("C12", "C02", "C08"), rl in c.st.held),
-                    ("no_read_while_own_events_are_queued", ("C12",), z3.Not(pending)),
+                    ("no_read_while_own_events_are_queued", ("C12", "C02", "C13", "C15"), z3.Not(pending)),
                     ("no_read_after_goaway", ("C14",), F(c, s, "H2._connection_terminated") == 0),
                 ]
             if ev.name == "list.append":
@@ -430,6 +451,13 @@ def register(reg):
                     out.append(("queue_key_is_the_events_stream_id", ("C01", "C12", "C02"), loc[2] == F(c, e, "E2.stream_id")))
             if ev.name == "call:" + H2 + "._receive_remote_settings_change":
                 out.append(("no_blocking_call_while_holding_the_read_lock", ("C12",), rl not in c.st.held))
+            if ev.name == "call:" + H2 + "._write_outgoing_data":
+                # a write can fail or be cancelled: everything h2 parsed must already sit in the stream
+                # queues (the dispatch loop lies between the read and the write), or other streams lose events
+                names = [e.name for e in c.trace]
+                rd = [i for i, n in enumerate(names) if n == "call:" + H2 + "._read_incoming_data"]
+                cut = [i for i, n in enumerate(names) if n == "loop_cut"]
+                out.append(("parsed_events_are_dispatched_before_the_flush", ("C02", "C12", "C01"), (not rd) or (bool(cut) and cut[-1] > rd[-1])))
             if ev.name == "field.write.check":
                 pass
             return out
@@ -470,7 +498,7 @@ def register(reg):
                 term = c.new(s, "H2._connection_terminated")
                 last = F(c, term, "E2.last_stream_id")
                 out += [
-                    ("refused_only_above_goaway_last_stream_id", ("C14",), z3.And(term.t != 0, z3.Not(sid.none), sid.val.t > last)),
+                    ("refused_only_above_goaway_last_stream_id", ("C14", "C15"), z3.And(term.t != 0, z3.Not(sid.none), sid.val.t > last)),
                     ("refusal_before_any_read", ("C14",), len(c.events("net.read")) == 0 and len(c.events("call:" + H2 + "._read_incoming_data")) == 0),
                 ]
             return out
@@ -635,7 +663,7 @@ def register(reg):
                 ok = len(evs) == 1
                 e = evs[0].data["result"] if ok else None
                 out += [
-                    ("acknowledges_the_flow_controlled_length", ("C13",), c.eng.coerce(c.st, ev.data["acknowledged_size"], "int").t == F(c, e, "E2.flow_controlled_length") if ok else False),
+                    ("acknowledges_the_flow_controlled_length", ("C13", "C12"), c.eng.coerce(c.st, ev.data["acknowledged_size"], "int").t == F(c, e, "E2.flow_controlled_length") if ok else False),
                     ("acknowledges_on_own_stream", ("C13",), c.eng.coerce(c.st, ev.data["stream_id"], "int").t == c.args["stream_id"].t),
                 ]
             return out
@@ -672,7 +700,7 @@ def register(reg):
     @reg.contract
     class WaitForFlow(Contract):
         key = H2 + "._wait_for_outgoing_flow"
-        props = ("C13", "C12")
+        props = ("C13", "C12", "C15")
         params = {"stream_id": "int"}
         result_kind = "int"
         modifies = ReceiveEvents.modifies
@@ -683,7 +711,7 @@ def register(reg):
             if ev.name == "call:" + H2 + "._receive_events":
                 sid = kwarg(ev, "stream_id", 1)
                 none = sid is None or isinstance(sid, VNone)
-                return [("blocked_sender_always_reads_the_network", ("C13",), none)]
+                return [("blocked_sender_always_reads_the_network", ("C13", "C12", "C15"), none)]
             return []
 
         def flow_now(self, c):
@@ -1106,7 +1134,7 @@ def register(reg):
                 rc = [e for e in c.trace if e.name == "call:" + H2 + "._response_closed"]
                 out.append(("cleanup_is_shielded", ("C05",), all(e.data.get("shield", 0) > 0 for e in rc) if c.eng.tree == "async" else True))
                 if exc.cls == CNA:
-                    out.append(("refusal_after_the_send_only_from_the_goaway_branch", ("C14",), exc.tag.get("from") in ("_receive_response", "call:AsyncHTTP2Connection._send_request_body@142", "call:AsyncHTTP2Connection._send_request_headers@140") or True))
+                    out.append(("refusal_after_the_send_only_from_the_goaway_check", ("C14",), cna_is_propagated(exc)))
                     req = c.args["request"]
                     body = VRef(ref_of_val(F(c, req, "Request.stream")), "pyvc.Body")
                     out.append(("refused_request_can_be_resent_in_full", ("C03", "C14"), z3.Or(z3.Not(F(c, body, "Body.consumed")), F(c, body, "Body.consumed", old=True))))
@@ -1206,3 +1234,22 @@ def register(reg):
                 ("failure_or_early_exit_closes_the_response", ("C05", "C12"), len(calls) == 1),
                 ("cleanup_is_shielded", ("C05",), all(e.data.get("shield", 0) > 0 for e in calls) if c.eng.tree == "async" else True),
             ]
+
+    # ConnectionNotAvailable is originated only by the GOAWAY check of _receive_events (and, before any
+    # exchange, by handle_async_request): everywhere else it is passed on from a callee, never raised
+    def _passes_on(K):
+        orig = K.exc_checks
+
+        def exc_checks(self, c, exc, orig=orig):
+            out = list(orig(self, c, exc) or [])
+            if exc.cls == CNA:
+                out.append(("refusal_is_passed_on_never_originated_here", ("C14",), cna_is_propagated(exc)))
+            return out
+
+        K.exc_checks = exc_checks
+        if "C14" not in K.props:
+            K.props = tuple(K.props) + ("C14",)
+
+    for K in (ReceiveStreamEvent, ReceiveResponse, ReceiveResponseBody, WaitForFlow, SendStreamData, SendEndStream, SendRequestBody,
+              SendRequestHeaders, WriteOutgoing, ReadIncoming, SettingsChange, ResponseClosed, BS2Iter, BS2Close):
+        _passes_on(K)
